@@ -171,6 +171,9 @@ type peer struct {
 	eof    chan struct{}
 	agg    int  // > 0: report reads in batches of at least this many bytes (tiny read buffers, large streams)
 	slow   bool // pause a millisecond after every read
+	// pauseAt > 0: stop reading for `pause` once, after that many bytes (a consumer that is busy for a while)
+	pauseAt int
+	pause   time.Duration
 }
 
 func (p *peer) write(total int, seg string) {
@@ -205,6 +208,10 @@ func (p *peer) readLoop(rbuf string) {
 		n, err := p.conn.Read(buf)
 		if p.slow && len(buf) >= 1024 {
 			time.Sleep(time.Millisecond)
+		}
+		if p.pauseAt > 0 && p.read+n >= p.pauseAt {
+			p.pauseAt = 0
+			time.Sleep(p.pause)
 		}
 		if n > 0 {
 			ok := bytes.Equal(buf[:n], streamChunk(p.c, p.inDir, p.read, n))
@@ -780,6 +787,52 @@ func bridgeLibDriver(a *Args) {
 			hx.Emit("Final", "server_open", 0, "judge_close", false, "bridge_fds_leaked", 0)
 			res.Case(fmt.Sprintf("lib:rbuf=%s/wseg=%s", rbuf, wseg), map[string]interface{}{"read_buffer": rbuf, "write_segments": wseg, "bytes_each_way": up})
 		}
+	}
+	// a reader that stops reading for eleven seconds while megabytes are on their way: nothing may be cut short
+	{
+		hx.Reset("bridgelib-paused", "bridgelib:paused-reader")
+		cmu.Lock()
+		cn++
+		c := cn
+		cmu.Unlock()
+		hx.Emit("Open", "c", c)
+		cl, err := connection.DialWebsocket(context.Background(), u, nil)
+		if err != nil {
+			res.Bad("DialWebsocket: %v", err)
+			return
+		}
+		cl.Write([]byte{byte(c >> 24), byte(c >> 16), byte(c >> 8), byte(c)})
+		var sc net.Conn
+		select {
+		case sc = <-srv.conns:
+			io.ReadFull(sc, make([]byte, 4))
+		case <-time.After(10 * time.Second):
+			res.Bad("library bridge: server never saw connection %d", c)
+			return
+		}
+		const big = 12 << 20
+		client := &peer{conn: cl, c: c, outDir: "up", inDir: "down", rng: rand.New(rand.NewSource(rng.Int63())), eof: make(chan struct{}), agg: 1 << 20, pauseAt: 4096, pause: 11 * time.Second}
+		server := &peer{conn: sc, c: c, outDir: "down", inDir: "up", rng: rand.New(rand.NewSource(rng.Int63())), eof: make(chan struct{}), agg: 1 << 20}
+		go client.readLoop("64k")
+		go server.readLoop("4096")
+		sc.SetWriteDeadline(time.Now().Add(30 * time.Second)) // (a bridge that stops forwarding must not hang the harness)
+		server.write(big, "64k")
+		hx.Emit("PeerClose", "c", c, "d", "down", "abortive", false)
+		halfClose(sc)
+		select {
+		case <-client.eof:
+		case <-time.After(20 * time.Second):
+		}
+		hx.Emit("PeerClose", "c", c, "d", "up", "abortive", false)
+		cl.Close()
+		select {
+		case <-server.eof:
+		case <-time.After(10 * time.Second):
+		}
+		sc.Close()
+		time.Sleep(20 * time.Millisecond)
+		hx.Emit("Final", "server_open", 0, "judge_close", false, "bridge_fds_leaked", 0)
+		res.Case("lib:paused-reader-11s", map[string]interface{}{"bytes": big, "pause_s": 11})
 	}
 	// 16 connections at once, small read buffers on the websocket side, messages larger than the buffers
 	rounds := 2
